@@ -40,9 +40,10 @@ class E2E(Prop):
                 ops.append("slave %d" % s)
                 slave = s
             sc["eff_slave"] = slave
+            ops += sc.get("pre", [])
             ops.append(cligen.call_op(sc["req"], typed=sc.get("typed", False), W=sc.get("W", "-")))
             m = dict(stage=0, proto=sc["proto"], slave=slave, req=mb.show_req(sc["req"]), svc=svc_token(sc["reply"]),
-                     typed=sc.get("typed", False), allcomp=sc.get("allcomp", False), first_slave=sc["slave"], nops=len(ops))
+                     typed=sc.get("typed", False), allcomp=sc.get("allcomp", False), first_slave=sc["slave"], nops=len(ops), npre=len(sc.get("pre", [])))
             cs.append(Case(cligen.cli_line(sc["proto"], sc["slave"], ops), m))
         return cs
 
@@ -55,6 +56,10 @@ class E2E(Prop):
                 continue
             if st == 0:
                 res, w = cligen.res_and_w(cligen.split_results(c.impl)[-1])
+                if m.get("npre"):
+                    # earlier calls left bytes in the write buffer: this call's own frame is the tail of what was transmitted
+                    fl = len(cligen.frame(m["proto"], 0, m["slave"], mb.spec_req_pdu(mb.parse_req(m["req"]))))
+                    w = w[-fl:]
                 if len(w) == 0:
                     continue
                 chunkings = list(mb.all_compositions(w)) if (m["allcomp"] and len(w) <= 11) else mb.chunkings(w, rng, 2) + [[w]]
